@@ -59,17 +59,12 @@ Definition re_step_sw (sw : bool) (st : St * list nat) (o : op) : (St * list nat
   | Create p => if m p then re_fwd s w o else ((s, w), eNOENT)
   | HReaddir h n =>
     if existsb (Nat.eqb h) w then
-      match inner s o with
-      | (s', RInfos l None) => ((s', w), RInfos (filter_infos m l) None)
-      | (s', RInfos l (Some e)) => ((s', w), RInfos [] (Some e))
-      | (s', r) => ((s', w), r)
-      end
+      let '(s', r) := re_readdir inner m re_fuel s h n in ((s', w), r)
     else re_fwd s w o
   | HReaddirnames h n =>
     if existsb (Nat.eqb h) w then
-      match inner s (HReaddir h n) with
-      | (s', RInfos l None) => ((s', w), RNames (map fi_name (filter_infos m l)) None)
-      | (s', RInfos l (Some e)) => ((s', w), RNames [] (Some e))
+      match re_readdir inner m re_fuel s h n with
+      | (s', RInfos l e) => ((s', w), RNames (map fi_name l) e)
       | (s', r) => ((s', w), r)
       end
     else re_fwd s w o
@@ -288,6 +283,135 @@ Definition listing_filtered (r : res) : Prop :=
 Definition readdir_shape : Prop :=
   forall s h n, match snd (inner s (HReaddir h n)) with RNames _ _ => False | _ => True end.
 
+(* ---- RegexpFile.Readdir = re_readdir: a run of inner Readdir(n) calls ----
+   whatever the value of the refill switch and whatever the fuel: some (possibly no) pages that the
+   inner filesystem answered with a nil error were dropped, each of them holding nothing the filter
+   shows; then the answer to the next inner Readdir(n) is the one returned, filtered *)
+Definition last_answer (r : res) : res :=
+  match r with
+  | RInfos l None => RInfos (filter_infos m l) None
+  | RInfos l (Some e) => RInfos [] (Some e)
+  | r => r
+  end.
+
+Inductive dropped_pages (h : nat) (n : Z) : St -> list (list finfo) -> St -> Prop :=
+| dp_nil s : dropped_pages h n s [] s
+| dp_cons s l s1 ps s' :
+    inner s (HReaddir h n) = (s1, RInfos l None) -> filter_infos m l = [] ->
+    dropped_pages h n s1 ps s' -> dropped_pages h n s (l :: ps) s'.
+
+Lemma re_readdir_spec : forall fuel s h n,
+  exists ps s1 s' r0, dropped_pages h n s ps s1 /\ inner s1 (HReaddir h n) = (s', r0) /\
+    re_readdir inner m fuel s h n = (s', last_answer r0).
+Proof.
+  induction fuel as [|f IH]; intros s h n; cbn [re_readdir];
+    destruct (inner s (HReaddir h n)) as [s' r] eqn:E.
+  - exists [], s, s', r. split; [constructor|]. split; [exact E|].
+    destruct r as [| | | | | | | | |l e| |]; try reflexivity. destruct e as [e|]; [reflexivity|].
+    cbn [last_answer]. destruct (negb (regexp_readdir_refills =? 1)); [reflexivity|].
+    destruct ((n <=? 0) || negb (match filter_infos m l with [] => true | _ => false end)
+              || (match l with [] => true | _ => false end)) eqn:C; [reflexivity|].
+    apply orb_false_iff in C as [C _]. apply orb_false_iff in C as [_ C]. apply negb_false_iff in C.
+    destruct (filter_infos m l); [reflexivity | discriminate].
+  - destruct r as [| | | | | | | | |l e| |];
+      try (exists [], s, s'; eexists; split; [constructor|]; split; [exact E|]; reflexivity).
+    destruct e as [e|]; [exists [], s, s'; eexists; split; [constructor|]; split; [exact E|]; reflexivity|].
+    destruct (negb (regexp_readdir_refills =? 1));
+      [exists [], s, s'; eexists; split; [constructor|]; split; [exact E|]; reflexivity|].
+    destruct ((n <=? 0) || negb (match filter_infos m l with [] => true | _ => false end)
+              || (match l with [] => true | _ => false end)) eqn:C;
+      [exists [], s, s'; eexists; split; [constructor|]; split; [exact E|]; reflexivity|].
+    apply orb_false_iff in C as [C _]. apply orb_false_iff in C as [_ C]. apply negb_false_iff in C.
+    assert (Hfl : filter_infos m l = []) by (destruct (filter_infos m l); [reflexivity | discriminate]).
+    destruct (IH s' h n) as [ps [s1 [s2 [r0 [Hd [Hi Hr]]]]]].
+    exists (l :: ps), s1, s2, r0. split; [econstructor; eauto|]. split; [exact Hi | exact Hr].
+Qed.
+
+Lemma filter_infos_app a b : filter_infos m (a ++ b) = filter_infos m a ++ filter_infos m b.
+Proof. unfold filter_infos. apply filter_app. Qed.
+
+Lemma dropped_pages_hidden h n s ps s' : dropped_pages h n s ps s' -> filter_infos m (concat ps) = [].
+Proof.
+  induction 1 as [|s l s1 ps s' Hi Hf Hd IH]; [reflexivity|].
+  cbn [concat]. now rewrite filter_infos_app, Hf, IH.
+Qed.
+
+(* consecutive nil-error answers of the inner Readdir(n) on handle h, from state s to state s' *)
+Inductive pages_read (h : nat) (n : Z) : St -> list (list finfo) -> St -> Prop :=
+| pr_last s l s' : inner s (HReaddir h n) = (s', RInfos l None) -> pages_read h n s [l] s'
+| pr_more s l s1 ps s' :
+    inner s (HReaddir h n) = (s1, RInfos l None) -> pages_read h n s1 ps s' -> pages_read h n s (l :: ps) s'.
+
+Lemma dropped_then_read h n s ps s1 l s' :
+  dropped_pages h n s ps s1 -> inner s1 (HReaddir h n) = (s', RInfos l None) -> pages_read h n s (ps ++ [l]) s'.
+Proof.
+  induction 1 as [|s l0 s1 ps s2 Hi Hf Hd IH]; intros Hl; cbn [app].
+  - now apply pr_last.
+  - eapply pr_more; [exact Hi | now apply IH].
+Qed.
+
+(* a nil-error listing is exactly the filter applied to the concatenation of the pages read:
+   everything in it is shown, and nothing that is shown was removed *)
+Theorem re_readdir_pages fuel s h n s' out :
+  re_readdir inner m fuel s h n = (s', RInfos out None) ->
+  exists pages, pages_read h n s pages s' /\ out = filter_infos m (concat pages) /\
+    forall fi, In fi (concat pages) -> shown fi -> In fi out.
+Proof.
+  intros H. destruct (re_readdir_spec fuel s h n) as [ps [s1 [s2 [r0 [Hd [Hi Hr]]]]]].
+  rewrite Hr in H. destruct r0 as [| | | | | | | | |l e| |]; cbn [last_answer] in H; try discriminate.
+  destruct e as [e|]; [discriminate|]. inversion H; subst s2 out.
+  exists (ps ++ [l]). split; [eapply dropped_then_read; eauto|].
+  assert (Heq : filter_infos m l = filter_infos m (concat (ps ++ [l]))).
+  { rewrite concat_app, filter_infos_app, (dropped_pages_hidden _ _ _ _ _ Hd). cbn [concat app].
+    now rewrite app_nil_r. }
+  split; [exact Heq|]. intros fi Hin Hs. rewrite Heq. now apply filter_infos_keeps.
+Qed.
+
+(* an error from the inner Readdir comes back with no entries *)
+Lemma re_readdir_error fuel s h n s' out e :
+  re_readdir inner m fuel s h n = (s', RInfos out (Some e)) -> out = [].
+Proof.
+  intros H. destruct (re_readdir_spec fuel s h n) as [ps [s1 [s2 [r0 [Hd [Hi Hr]]]]]].
+  rewrite Hr in H. destruct r0 as [| | | | | | | | |l e0| |]; cbn [last_answer] in H; try discriminate.
+  destruct e0; inversion H; reflexivity.
+Qed.
+
+(* the refill loop (switch on): for n > 0, an empty nil-error answer means that the inner filesystem's
+   last page was itself empty — or that fuel + 1 pages in a row held nothing the filter shows *)
+Lemma re_readdir_refills : regexp_readdir_refills = 1 -> forall fuel s h n s',
+  0 < n -> re_readdir inner m fuel s h n = (s', RInfos [] None) ->
+  exists ps s1 l, dropped_pages h n s ps s1 /\ inner s1 (HReaddir h n) = (s', RInfos l None) /\
+    (l = [] \/ (length ps = fuel /\ filter_infos m l = [])).
+Proof.
+  intros Hc. induction fuel as [|f IH]; intros s h n s' Hn; cbn [re_readdir]; rewrite Hc; cbn [Z.eqb Pos.eqb negb];
+    destruct (inner s (HReaddir h n)) as [s1 r] eqn:E;
+    (destruct r as [| | | | | | | | |l e| |]; try discriminate); (destruct e as [e|]; [discriminate|]);
+    (replace (n <=? 0) with false by (symmetry; apply Z.leb_gt; exact Hn)); cbn [orb];
+    destruct (filter_infos m l) as [|x fl] eqn:Hf; cbn [negb orb].
+  - destruct l as [|y l]; intros H; inversion H; subst s1;
+      exists [], s; eexists; (split; [constructor|]); (split; [exact E|]); [left|right]; auto.
+  - intros H; inversion H.
+  - destruct l as [|y l].
+    + intros H; inversion H; subst s1. exists [], s, []. split; [constructor|]. split; [exact E|]. now left.
+    + intros H. destruct (IH s1 h n s' Hn H) as [ps [s2 [l2 [Hd [Hi Ho]]]]].
+      exists ((y :: l) :: ps), s2, l2. split; [econstructor; eauto|]. split; [exact Hi|].
+      destruct Ho as [Ho|[Ho1 Ho2]]; [now left | right]. split; [cbn [length]; now rewrite Ho1 | exact Ho2].
+  - intros H; inversion H.
+Qed.
+
+Lemma re_readdir_filtered : readdir_shape -> forall fuel s h n,
+  match snd (re_readdir inner m fuel s h n) with
+  | RInfos l _ => Forall shown l
+  | RNames _ _ => False
+  | _ => True
+  end.
+Proof.
+  intros Hshape fuel s h n. destruct (re_readdir_spec fuel s h n) as [ps [s1 [s2 [r0 [Hd [Hi Hr]]]]]].
+  rewrite Hr. cbn [snd]. pose proof (Hshape s1 h n) as Hs. rewrite Hi in Hs. cbn [snd] in Hs.
+  destruct r0 as [| | | | | | | | |l e|l e|]; cbn [last_answer]; try exact I; [|exact Hs].
+  destruct e; [constructor | apply filter_infos_shown].
+Qed.
+
 Theorem re_wrapped_listing_filtered sw s w o h :
   readdir_shape -> op_handle_of o = Some h -> In h w ->
   match o with HReaddir _ _ | HReaddirnames _ _ => True | _ => False end ->
@@ -296,15 +420,27 @@ Proof.
   intros Hshape Hh Hin Ho.
   assert (Hex : existsb (Nat.eqb h) w = true).
   { apply existsb_exists. exists h. split; [exact Hin | apply Nat.eqb_refl]. }
-  destruct o; try contradiction; cbn [op_handle_of] in Hh; inversion Hh; subst h0; cbn [re_step_sw]; rewrite Hex.
-  - pose proof (Hshape s h n) as Hs. destruct (inner s (HReaddir h n)) as [s' r]. cbn [snd] in Hs.
-    destruct r as [| | | | | | | | |l e|l e|]; try exact I; [|contradiction].
-    destruct e; cbn [snd listing_filtered]; [constructor | apply filter_infos_shown].
-  - pose proof (Hshape s h n) as Hs. destruct (inner s (HReaddir h n)) as [s' r]. cbn [snd] in Hs.
-    destruct r as [| | | | | | | | |l e|l e|]; try exact I; [|contradiction].
-    destruct e; cbn [snd listing_filtered].
-    + exists []. split; [constructor | reflexivity].
-    + exists (filter_infos m l). split; [apply filter_infos_shown | reflexivity].
+  destruct o; try contradiction; cbn [op_handle_of] in Hh; inversion Hh; subst h0; cbn [re_step_sw]; rewrite Hex;
+    pose proof (re_readdir_filtered Hshape re_fuel s h n) as Hf;
+    destruct (re_readdir inner m re_fuel s h n) as [s' r]; cbn [snd] in Hf.
+  - destruct r; cbn [snd listing_filtered]; try exact I; [exact Hf | contradiction].
+  - destruct r as [| | | | | | | | |l e|l e|]; cbn [snd listing_filtered]; try exact I; [|contradiction].
+    exists l. split; [exact Hf | reflexivity].
+Qed.
+
+(* a wrapped handle's Readdir is re_readdir, its Readdirnames the names of the same *)
+Lemma re_wrapped_readdir sw s w h n :
+  In h w ->
+  re_step_sw sw (s, w) (HReaddir h n) = (let '(s', r) := re_readdir inner m re_fuel s h n in ((s', w), r)) /\
+  re_step_sw sw (s, w) (HReaddirnames h n) =
+    (let '(s', r) := re_readdir inner m re_fuel s h n in
+     ((s', w), match r with RInfos l e => RNames (map fi_name l) e | r => r end)).
+Proof.
+  intros Hin.
+  assert (Hex : existsb (Nat.eqb h) w = true).
+  { apply existsb_exists. exists h. split; [exact Hin | apply Nat.eqb_refl]. }
+  cbn [re_step_sw]. rewrite Hex. split; [reflexivity|].
+  destruct (re_readdir inner m re_fuel s h n) as [s' r]. destruct r; reflexivity.
 Qed.
 
 (* which handles are RegexpFiles: Open always adds its handle; OpenFile iff the switch is on *)
@@ -346,11 +482,9 @@ Proof.
   - destruct (is_dir inner s p) as [s1 [[|]|e]]; try exact Hin.
     destruct (negb (m p)); [exact Hin|]. destruct (negb (m q)); [exact Hin | apply Hf].
   - destruct (existsb (Nat.eqb h0) w); [|apply Hf].
-    destruct (inner s (HReaddir h0 n)) as [s1 r]. destruct r as [| | | | | | | | |l e| |]; try exact Hin.
-    destruct e; exact Hin.
+    destruct (re_readdir inner m re_fuel s h0 n) as [s1 r]. exact Hin.
   - destruct (existsb (Nat.eqb h0) w); [|apply Hf].
-    destruct (inner s (HReaddir h0 n)) as [s1 r]. destruct r as [| | | | | | | | |l e| |]; try exact Hin.
-    destruct e; exact Hin.
+    destruct (re_readdir inner m re_fuel s h0 n) as [s1 r]. destruct r; exact Hin.
 Qed.
 
 (* handles returned by Open / OpenFile during a run *)
@@ -455,6 +589,43 @@ Theorem re_step_open_listing_filtered s w p s' w' h o :
 Proof.
   intros Hshape Ho Hh Hk s2. rewrite re_step_is_sw in *.
   eapply re_wrapped_listing_filtered; eauto. eapply re_open_wraps. exact Ho.
+Qed.
+
+(* the listing of a RegexpFile handle, in terms of the inner filesystem's pages *)
+Theorem re_step_listing_pages s w h n s' w' out :
+  In h w -> re_step inner m (s, w) (HReaddir h n) = ((s', w'), RInfos out None) ->
+  w' = w /\
+  exists pages, pages_read inner h n s pages s' /\ out = filter_infos m (concat pages) /\
+    forall fi, In fi (concat pages) -> shown m fi -> In fi out.
+Proof.
+  intros Hin H. rewrite re_step_is_sw in H.
+  rewrite (proj1 (re_wrapped_readdir inner m _ s w h n Hin)) in H.
+  destruct (re_readdir inner m re_fuel s h n) as [s1 r] eqn:E. inversion H; subst s1 w' r.
+  split; [reflexivity|]. eapply re_readdir_pages. exact E.
+Qed.
+
+Theorem re_step_readdirnames_of_readdir s w h n :
+  In h w ->
+  fst (re_step inner m (s, w) (HReaddirnames h n)) = fst (re_step inner m (s, w) (HReaddir h n)) /\
+  snd (re_step inner m (s, w) (HReaddirnames h n)) =
+    match snd (re_step inner m (s, w) (HReaddir h n)) with RInfos l e => RNames (map fi_name l) e | r => r end.
+Proof.
+  intros Hin. rewrite !re_step_is_sw.
+  destruct (re_wrapped_readdir inner m (regexp_openfile_wraps =? 1) s w h n Hin) as [-> ->].
+  destruct (re_readdir inner m re_fuel s h n) as [s1 r]. destruct r; now split.
+Qed.
+
+(* the refill loop, given the fact about the source "Readdir re-reads while a page was filtered to nothing" *)
+Theorem re_step_listing_refills s w h n s' w' :
+  regexp_readdir_refills = 1 -> In h w -> 0 < n ->
+  re_step inner m (s, w) (HReaddir h n) = ((s', w'), RInfos [] None) ->
+  exists ps s1 l, dropped_pages inner m h n s ps s1 /\ inner s1 (HReaddir h n) = (s', RInfos l None) /\
+    (l = [] \/ (length ps = re_fuel /\ filter_infos m l = [])).
+Proof.
+  intros Hc Hin Hn H. rewrite re_step_is_sw in H.
+  rewrite (proj1 (re_wrapped_readdir inner m _ s w h n Hin)) in H.
+  destruct (re_readdir inner m re_fuel s h n) as [s1 r] eqn:E. inversion H; subst s1 w' r.
+  eapply re_readdir_refills; eauto.
 Qed.
 End Model.
 
